@@ -8,7 +8,7 @@ on a local or parameter (functionalised: the name is rebound to the updated valu
 ``d.items()/.keys()/.values()``, a list/tuple/dict/str value or a list of function values, ``continue``, ``return``, ``raise
 Cls(...)`` (arguments dropped), ``warn(...)`` (dropped), list comprehensions, ``all/any`` over one generator, boolean operators,
 ``== != is [not] None, is np.nan, in, not in``, ``isinstance``, ``hasattr(x, "uid"|"__iter__")``, subscripts, ``.get``, ``.copy``,
-conditional expressions, calls of translated functions, of *extern* (hand-modelled) functions, of a function value drawn from a
+conditional expressions, ``typing.cast``, ``try: <assignments> except E: warn(..)`` (statement by statement), calls of translated functions, of *extern* (hand-modelled) functions, of a function value drawn from a
 list of functions, and a fixed set of library primitives (``str float list tuple len np.isfinite UUID(str(x))``).
 
 Systematic transformations (trusted, cross-checked by the correspondence run on every translated function):
@@ -672,6 +672,8 @@ class FnTranslator:
                 c = self.E(g.elt, set(defined) | set(names), "bool")
                 self.kinds = saved
                 return self.seq_list(it, lambda l: ("res_bool", f"{n}_res (fun {pat} => {self.to_res(c)}) {l}"))
+            if n == "cast" and len(args) == 2 and not e.keywords:       # typing.cast is the identity
+                return self.E(args[1], defined, want)
             if n == "UUID" and len(args) == 1:
                 a = args[0]
                 if isinstance(a, ast.Call) and isinstance(a.func, ast.Name) and a.func.id == "str" and len(a.args) == 1:
@@ -829,6 +831,19 @@ class FnTranslator:
             self.kinds[name] = kind
             return f"let {self.var(name)} := {t} in\n{k(d2)}"
         self.kinds[name] = "pv"
+        tc = getattr(self, "try_catch", None)
+        if tc is not None:
+            # the statement sits in `try: ... except E: <warn only>`: E raised by it resumes after the try with the state before it
+            self.try_catch = None
+            exn, handler = tc
+            if kind in RES:
+                hk = handler()
+                saved_k, saved_c = dict(self.kinds), dict(self.consumed)
+                body = k(d2)
+                self.kinds, self.consumed = saved_k, saved_c
+                return (f"match {t} with\n| Ok {self.var(name)} =>\n{textwrap.indent(body, '    ')}\n"
+                        f"| Raise e_ => if exn_eqb e_ {exn} then\n{textwrap.indent(hk, '    ')}\n  else Raise e_\nend")
+            return f"let {self.var(name)} := {t} in\n{k(d2)}"
         if kind in RES:
             return f"{self.var(name)} <- {t} ;;\n{k(d2)}"
         return f"let {self.var(name)} := {t} in\n{k(d2)}"
@@ -1051,6 +1066,32 @@ class FnTranslator:
         """two recognised idioms:
              try: <call for effect | name = expr>
              except tuple(BaseValidationError.__subclasses__()) | <ExcName> [as e]: raise <KnownExc>(..) [from e]"""
+        if (len(s.handlers) == 1 and not s.orelse and not s.finalbody and isinstance(s.handlers[0].type, ast.Name)
+                and s.handlers[0].type.id in EXN
+                and all(isinstance(x, ast.Pass) or (isinstance(x, ast.Expr) and self.is_warn(x.value)) for x in s.handlers[0].body)
+                and all(isinstance(x, ast.Assign) and len(x.targets) == 1 and isinstance(x.targets[0], (ast.Name, ast.Subscript))
+                        for x in s.body)):
+            # third idiom:  try: <assignments>  except E: warn(...)   -- statement by statement; E resumes after the try
+            exn = EXN[s.handlers[0].type.id]
+            self.info.dropped.append(f"warn() in except at line {s.handlers[0].lineno}")
+            body = list(s.body)
+
+            def go(i, d):
+                if i == len(body):
+                    return cont(d)
+                saved_k, saved_c = dict(self.kinds), dict(self.consumed)
+
+                def handler(d=d, saved_k=saved_k, saved_c=saved_c):
+                    cur_k, cur_c = dict(self.kinds), dict(self.consumed)
+                    self.kinds, self.consumed = dict(saved_k), dict(saved_c)
+                    r = cont(d)
+                    self.kinds, self.consumed = cur_k, cur_c
+                    return r
+                self.try_catch = (exn, handler)
+                r = self.B([body[i]], d, lambda d2: go(i + 1, d2))
+                self.try_catch = None
+                return r
+            return go(0, defined)
         ok = (len(s.body) == 1 and len(s.handlers) == 1 and not s.orelse and not s.finalbody
               and len(s.handlers[0].body) == 1 and isinstance(s.handlers[0].body[0], ast.Raise))
         if not ok:
